@@ -90,6 +90,19 @@ def gen_projects(run):
             imports = {p: [] for p in PK}
             imports["Main"] = [x for x in PK if x != "Main"]
             ps.append({"imports": imports, "impls": [("Traits", "Traits", t, sp1), ("Traits", "Traits", t, sp2)], "refs": []})
+    # the same impl of the IMPORTED trait twice in one package (the trait lives in another package's environment)
+    for pkg in PK:
+        if pkg == "Traits":
+            continue
+        for t in ("local", "Data::S") if pkg != "Data" else ("local", "Data::S", "Data::E"):
+            if t.startswith("Data::") and pkg not in ("Data",):
+                continue  # (would be an orphan: judged elsewhere)
+            imports = {p: [] for p in PK}
+            imports["Main"] = [x for x in PK if x != "Main"]
+            if pkg != "Main":
+                imports[pkg] = ["Traits"]
+            ps.append({"imports": imports, "impls": [(pkg, "Traits", t), (pkg, "Traits", t)], "refs": []})
+            ps.append({"imports": imports, "impls": [(pkg, "Traits", t)], "refs": []})
     # qualified references with / without import
     for src_pkg in PK:
         for tgt in PK:
